@@ -1260,6 +1260,8 @@ void SPxSolverBase<R>::setType(Type tp)
          enterCount = base.enterCount;
          theCumulativeTime = base.theCumulativeTime;
          random = base.random;
+         solvingForBoosted = base.solvingForBoosted;
+         storeBasisSimplexFreq = base.storeBasisSimplexFreq;
          primalCount = base.primalCount;
          polishCount = base.polishCount;
          boundflips = base.boundflips;
@@ -1511,6 +1513,8 @@ void SPxSolverBase<R>::setType(Type tp)
       , integerVariables(base.integerVariables)
    {
       random = base.random;
+      solvingForBoosted = base.solvingForBoosted;
+      storeBasisSimplexFreq = base.storeBasisSimplexFreq;
       theTime = TimerFactory::createTimer(timerType);
       multTimeSparse = TimerFactory::createTimer(timerType);
       multTimeFull = TimerFactory::createTimer(timerType);
